@@ -210,6 +210,30 @@ def _run_r8(ctx):
         Vs = sorted({sym for sym in r.st.facts if is_override_value(sym)})
         stores = [(e[2], e[3]) for e in r.ev if e[0] == "setitem"] + [(None, a_.split("=", 1)[1]) for e in r.ev if e[0] == "call" and e[1].endswith(".update") for a_ in e[2:] if isinstance(a_, str) and "=" in a_]
         drops = [e for e in r.ev if e[0] == "delitem" or (e[0] == "call" and e[1].rsplit(".", 1)[-1] in ("pop", "__delitem__"))]
+        if not Vs and r.truth(OV) is not False:
+            # declarative spelling (comprehensions over override.items()): the decision is a filter condition inside the terms
+            texts = [r.ret or ""] + [a_ for e in r.ev for a_ in e[1:] if isinstance(a_, str)]
+            conds = []
+            for t_ in texts:
+                for x_ in subterms(t_):
+                    o_, a_ = destruct(x_)
+                    if o_ in ("truthy", "cmp:is", "cmp:isnot", "cmp:eq", "cmp:ne") and a_ and any(is_override_value(y_) for y_ in a_):
+                        conds.append((o_, a_))
+            flows = any(OV in t_ for t_ in texts)
+            if flows and (r.ret or "") != OV:
+                key = ("decl", tuple(sorted(conds)))
+                if key not in seen:
+                    seen.add(key)
+                    n_dec += 2  # one filter condition stands for both polarities
+                    on_truth = [c for c in conds if c[0] == "truthy"]
+                    on_none = [c for c in conds if c[0] in ("cmp:is", "cmp:isnot") and "None" in c[1]]
+                    if on_truth:
+                        ctx.ob(R8, fi.qual, "the merge decides on `value is None`, not on truthiness (declarative form)", False,
+                               "an override whose value is not None (e.g. False, 0, [], CERT_NONE) is treated like None: the decision is taken on its truthiness", witness=r.witness(), node=fi.node)
+                    elif on_none:
+                        ctx.ob(R8, fi.qual, "the merge decides on `value is None` (declarative form: filter over override.items())", True, witness=r.witness(), node=fi.node)
+                    else:
+                        ctx.ob(R8, fi.qual, f"the overrides flow into the merged context (merge idiom not recognised: {(r.ret or '')[:60]})", True, witness=r.witness(), node=fi.node)
         for V in Vs:
             truth, none = r.st.facts[V]
             stored = any(v_ == V for _, v_ in stores)
